@@ -30,6 +30,10 @@ func init() {
 			"the same neighbour name are resolved first-come in map order (information only).",
 		Run: runC14,
 		Mutants: []Mutant{
+			{Name: "unnumbered-neighbor-key-without-interface", File: "internal/bgp/frr/config.go",
+				Old: "\t\treturn fmt.Sprintf(\"%s@%s@%s\", asn, iface, vrfName)\n", New: "\t\treturn fmt.Sprintf(\"%s@%s@%s\", asn, peerAddr, vrfName)\n", Expect: "KEY-COMPLETE"},
+			{Name: "v6-large-community-falls-through", File: "internal/bgp/frr/frr.go",
+				Old: "\t\t\t\t\tproperties.LargeCommunitiesV6.Insert(c.String())\n\t\t\t\t\tcontinue\n", New: "\t\t\t\t\tproperties.LargeCommunitiesV6.Insert(c.String())\n", Expect: "FAMILY-SETS"},
 			{Name: "template-field-misspelt", File: "internal/bgp/frr/templates/neighborsession.tmpl",
 				Old: "{{- if .neighbor.EBGPMultiHop }}", New: "{{- if .neighbor.EBGPMultihop }}", Expect: "TPL-TYPES"},
 			{Name: "multihop-not-forwarded", File: "internal/bgp/frr/frr.go",
